@@ -12,6 +12,7 @@ from vlib import engine_checks  # noqa: E402
 from vlib import cmp_checks  # noqa: E402
 from vlib import emplace_checks  # noqa: E402
 from vlib import footprint_checks  # noqa: E402
+from vlib import probe_checks  # noqa: E402
 
 ENGINE_PROPS = set(engine_checks.LEVEL)
 
@@ -27,6 +28,8 @@ def cmd_check(args):
         return emplace_checks.run_check(prop, tier)
     if prop == "C19":
         return footprint_checks.run_check(prop, tier)
+    if prop == "C20":
+        return probe_checks.run_check(prop, tier)
     print("no check registered for %s" % prop)
     return 2
 
